@@ -154,7 +154,7 @@ def _run_native(native_jobs, jobs, limit_s):
     return out
 
 
-VERIFY_LIMIT_S = float(os.environ.get("PYVC_VERIFY_LIMIT_S", "300"))
+VERIFY_LIMIT_S = float(os.environ.get("PYVC_VERIFY_LIMIT_S", "480"))
 
 
 def run_items(items, jobs=16, limit_s=None):
